@@ -1,5 +1,6 @@
 import Props.C09
 import Proofs.NStepAlign
+import Proofs.NStepGenEq
 
 /-!
 # C10 — n-step returns never cross an episode boundary and stay aligned with 1-step data
@@ -198,6 +199,167 @@ theorem C10_recent_records_stored (n m cap : Nat) (γ : Rat) (fixed : Bool) (hn 
     rw [hob, List.getD_eq_getElem?_getD, hst]
     simp only [Option.getD_some]
     rw [flat_cell s.oRows w2 _ _ (by rw [c2]; exact hk) he, b]
+
+/-! ### the theorems over the definitions generated from the source text
+
+`Gen/NStepGen.lean` is written by `harness/py2lean_nstep.py` from the text of
+`MultiStepReplayBuffer.add` / `_get_n_step_info` on every run; `Proofs/NStepGenEq.lean` proves the
+generated definitions equal to the model.  A transition is `NStepGen.TD` (one vector per key, one entry
+per environment); `TDWF m t` says its five vectors have length `m` (`batch_size = [m]`). -/
+section source_translation
+open NStepGen
+
+/-- every generated definition equals the hand-written model function: the `for` loop with `break`
+    on whole vectors is the model's loop per environment, `_get_n_step_info` is `fuseRow true`,
+    `deque.append` is `push`, `add` is the window / stored / returned part of `State.add`, and folding
+    `add` over a stream is `run` -/
+theorem C10_source_translation_equalities (n m : Nat) (γ : Rat) :
+    (∀ (rest : List Row) (i : Nat) (first : TD) (nsr : List Rat), (∀ r ∈ rest, r.length = m) →
+      first.next_obs.length = m → first.done.length = m → nsr.length = m →
+      get_n_step_info_loop0 n γ i (rest.map toTD) first nsr =
+        pack m first (fun e => loop γ e i (accAt first nsr e) rest)) ∧
+    (∀ (w : List Row), w ≠ [] → (∀ r ∈ w, r.length = m) →
+      get_n_step_info n γ (w.map toTD) = some (toTD (fuseRow true γ w))) ∧
+    (∀ (w : List Row) (r : Row), dequeAppend n (w.map toTD) (toTD r) = (push n w r).map toTD) ∧
+    (1 ≤ n → ∀ (w : List Row) (r : Row), (∀ x ∈ w, x.length = m) → r.length = m →
+      NStepGen.add n γ (w.map toTD) (toTD r) = some (addSpec n γ w r)) ∧
+    (1 ≤ n → ∀ (capN capO : Nat) (rows : List Row), (∀ r ∈ rows, r.length = m) →
+      genRun n γ (rows.map toTD) = some (genView (run n γ true capN capO rows))) ∧
+    (∀ t, TDWF m t → toTD (ofTD t) = t) ∧ (∀ r : Row, ofTD (toTD r) = r) :=
+  ⟨gen_loop_eq n γ m, fun w h1 h2 => gen_get_n_step_info_eq n γ m w h1 h2, dequeAppend_toTD n,
+   fun hn w r hw hr => gen_add_eq n γ m hn w r hw hr,
+   fun hn capN capO rows h => gen_run_eq n m capN capO γ hn rows h, toTD_ofTD m, ofTD_toTD⟩
+
+/-- **fused record = specification**, over the generated `_get_n_step_info`.  For every non-empty
+    window of well-formed transitions the call succeeds and, for every environment `e`, the record
+    carries obs / action of row 0, the discounted sum `Σ_{i<k} γ^i · r_i` over the first `k` rows and
+    next_obs / done of row `k-1`, where `k = genCut W` = 1 + index of the first row whose `done.any()`
+    holds (row 0 included), capped at the window length. -/
+theorem C10_source_translation_fused_is_spec (n m : Nat) (γ : Rat) (W : List TD)
+    (hW : ∀ t ∈ W, TDWF m t) (hne : W ≠ []) :
+    ∃ F, get_n_step_info n γ W = some F ∧ TDWF m F ∧
+      genCut W = min (W.findIdx (fun t => tAny t.done) + 1) W.length ∧ 1 ≤ genCut W ∧ genCut W ≤ W.length ∧
+      ∀ e, e < m →
+        F.obs.getD e 0 = (W.getD 0 default).obs.getD e 0 ∧
+        F.action.getD e 0 = (W.getD 0 default).action.getD e 0 ∧
+        F.reward.getD e 0 = ∑ i ∈ range (genCut W), γ ^ i * (W.getD i default).reward.getD e 0 ∧
+        F.next_obs.getD e 0 = (W.getD (genCut W - 1) default).next_obs.getD e 0 ∧
+        F.done.getD e false = (W.getD (genCut W - 1) default).done.getD e false := by
+  have hw := map_ofTD_widths m W hW
+  have hne' : W.map ofTD ≠ [] := by simpa using hne
+  have heq := gen_get_n_step_info_eq n γ m (W.map ofTD) hne' hw
+  rw [map_toTD_ofTD m W hW] at heq
+  have hcut := cutLen_ofTD m W hW
+  have hpos : 1 ≤ genCut W := hcut ▸ cutLen_pos hne'
+  have hle : genCut W ≤ W.length := by have := cutLen_le (W.map ofTD); rw [hcut] at this; simpa using this
+  have hlen : (fuseRow true γ (W.map ofTD)).length = m := by
+    rw [fuseRow_length]
+    cases W with
+    | nil => exact absurd rfl hne
+    | cons t rest => exact ofTD_width m t (hW t (by simp))
+  refine ⟨_, heq, hlen ▸ toTD_wf _, genCut_eq_findIdx W, hpos, hle, ?_⟩
+  intro e he
+  obtain ⟨g1, g2, g3, g4, g5⟩ := toTD_getD (fuseRow true γ (W.map ofTD)) e (by omega)
+  have hhead : e < ((W.map ofTD).headD []).length := by
+    cases W with
+    | nil => exact absurd rfl hne
+    | cons t rest => simpa [ofTD_width m t (hW t (by simp))] using he
+  have hspec := fuseAt_spec γ (W.map ofTD) hne' e
+  rw [g1, g2, g3, g4, g5, fuseRow_getD true γ _ e hhead, hspec, hcut]
+  have c0 := cellAt_ofTD m W hW 0 e (by omega) he
+  have cl := cellAt_ofTD m W hW (genCut W - 1) e (by omega) he
+  refine ⟨by rw [c0], by rw [c0], ?_, by rw [cl], by rw [cl]⟩
+  show (∑ i ∈ range (genCut W), γ ^ i * (cellAt (W.map ofTD) i e).rew) = _
+  apply Finset.sum_congr rfl
+  intro i hi
+  rw [cellAt_ofTD m W hW i e (by have := Finset.mem_range.mp hi; omega) he]
+
+/-- **nothing after a terminal row enters**, over the generated `_get_n_step_info`: if row `d` of the
+    window is terminal in some environment, the result is the same whatever rows follow `d` -/
+theorem C10_source_translation_no_cross_episode (n m : Nat) (γ : Rat) (p : List TD) (d : TD)
+    (hd : tAny d.done = true) (rest rest' : List TD)
+    (h1 : ∀ t ∈ p ++ d :: rest, TDWF m t) (h2 : ∀ t ∈ p ++ d :: rest', TDWF m t) :
+    get_n_step_info n γ (p ++ d :: rest) = get_n_step_info n γ (p ++ d :: rest') := by
+  have hdw : TDWF m d := h1 d (by simp)
+  have e1 := gen_get_n_step_info_eq n γ m ((p ++ d :: rest).map ofTD) (by simp) (map_ofTD_widths m _ h1)
+  have e2 := gen_get_n_step_info_eq n γ m ((p ++ d :: rest').map ofTD) (by simp) (map_ofTD_widths m _ h2)
+  rw [map_toTD_ofTD m _ h1] at e1
+  rw [map_toTD_ofTD m _ h2] at e2
+  rw [e1, e2]
+  simp only [List.map_append, List.map_cons]
+  rw [fuseRow_indep γ (p.map ofTD) (ofTD d) (by rw [rowDone_ofTD m d hdw]; exact hd)]
+
+/-- **a window that starts on a terminal row is returned unchanged**, over the generated
+    `_get_n_step_info` (the repair of defect D-C10: nothing of the next episode is mixed in) -/
+theorem C10_source_translation_terminal_first_unchanged (n m : Nat) (γ : Rat) (r0 : TD) (rest : List TD)
+    (hd : tAny r0.done = true) (h : ∀ t ∈ r0 :: rest, TDWF m t) :
+    get_n_step_info n γ (r0 :: rest) = some r0 := by
+  have h0 : TDWF m r0 := h r0 (by simp)
+  have e1 := gen_get_n_step_info_eq n γ m ((r0 :: rest).map ofTD) (by simp) (map_ofTD_widths m _ h)
+  rw [map_toTD_ofTD m _ h] at e1
+  rw [e1, List.map_cons, fuseRow_first_done γ _ _ (by rw [rowDone_ofTD m r0 h0]; exact hd), toTD_ofTD m r0 h0]
+
+/-- **k-th n-step record ↔ k-th 1-step record**, over the generated `add` folded over an arbitrary
+    stream (`one = n_step_memory.add(t); if one is not None: memory.add(one)`): the fold succeeds, both
+    storages have received `K = L + 1 - n` records, the deque holds the last `n` rows, the k-th record
+    handed to the 1-step buffer is stream row `k` itself and the k-th record handed to the n-step
+    storage is `_get_n_step_info` of the window starting at stream position `k`. -/
+theorem C10_source_translation_kth_records_aligned (n m : Nat) (γ : Rat) (hn : 1 ≤ n) (X : List TD)
+    (hX : ∀ t ∈ X, TDWF m t) :
+    ∃ g, genRun n γ X = some g ∧
+      g.stored.length = X.length + 1 - n ∧ g.ret.length = X.length + 1 - n ∧
+      g.buf = X.drop (X.length - n) ∧
+      ∀ k, k < X.length + 1 - n →
+        g.ret[k]? = X[k]? ∧ get_n_step_info n γ ((X.drop k).take n) = g.stored[k]? := by
+  have hw := map_ofTD_widths m X hX
+  have hrun := gen_run_eq n m 1 1 γ hn (X.map ofTD) hw
+  rw [map_toTD_ofTD m X hX] at hrun
+  have inv := run_inv n γ true 1 1 m hn (X.map ofTD) hw
+  obtain ⟨c1, c2⟩ := sinv_counts hn inv
+  simp only [List.length_map] at c1 c2
+  refine ⟨_, hrun, by simp [genView, c1], by simp [genView, c2], ?_, ?_⟩
+  · simp only [genView]
+    rw [inv.window, List.length_map, ← List.map_drop, map_toTD_ofTD m _ (fun t ht => hX t (List.mem_of_mem_drop ht))]
+  · intro k hk
+    have hk' : k < (X.map ofTD).length + 1 - n := by simpa using hk
+    obtain ⟨a, b⟩ := sinv_kth inv k hk'
+    have hkl : k < X.length := by omega
+    have hsub : ∀ t ∈ (X.drop k).take n, TDWF m t :=
+      fun t ht => hX t (List.mem_of_mem_drop (List.mem_of_mem_take ht))
+    have hne : ((X.drop k).take n).map ofTD ≠ [] := by
+      intro h0
+      have := congrArg List.length h0
+      simp only [List.length_map, List.length_take, List.length_drop, List.length_nil] at this
+      omega
+    constructor
+    · simp only [genView, List.getElem?_map]
+      have hb : (run n γ true 1 1 (X.map ofTD)).oRows[k]? = some (ofTD X[k]) := by
+        have hko : k < (run n γ true 1 1 (X.map ofTD)).oRows.length := by rw [c2]; exact hk
+        rw [List.getD_eq_getElem?_getD, List.getD_eq_getElem?_getD, List.getElem?_eq_getElem hko,
+          List.getElem?_map, List.getElem?_eq_getElem hkl] at b
+        rw [List.getElem?_eq_getElem hko]
+        simpa using b
+      rw [hb, List.getElem?_eq_getElem hkl]
+      simp [toTD_ofTD m _ (hX _ (List.getElem_mem hkl))]
+    · have e1 := gen_get_n_step_info_eq n γ m (((X.drop k).take n).map ofTD) hne (map_ofTD_widths m _ hsub)
+      rw [map_toTD_ofTD m _ hsub] at e1
+      rw [e1]
+      simp only [genView, List.getElem?_map]
+      have hkn : k < (run n γ true 1 1 (X.map ofTD)).nRows.length := by rw [c1]; exact hk
+      rw [List.getD_eq_getElem?_getD, List.getElem?_eq_getElem hkn] at a
+      rw [List.getElem?_eq_getElem hkn]
+      simp only [Option.getD_some] at a
+      rw [a, List.map_take, List.map_drop]
+      rfl
+
+-- non-vacuity: `demoTD` (Proofs/NStepGenEq.lean) is a well-formed stream of width 2 whose second row is
+-- terminal in environment 1; with n = 2 the generated `add` stores two records, the second one unchanged
+example : (genRun 2 (1/2) demoTD).map (fun g => (g.stored, g.ret, g.buf)) =
+    some ([⟨[10, 20], [10, 20], [3, 6], [12, 22], [false, true]⟩, demoTD.getD 1 default],
+          demoTD.take 2, demoTD.drop 1) := by decide +kernel
+example : tAny (demoTD.getD 1 default).done = true ∧ genCut demoTD = 2 := by decide
+
+end source_translation
 
 /-! ### the unrepaired variant (history of defect D-C10: `done` of window row 0 was never read) -/
 
